@@ -1691,17 +1691,25 @@ class SQLGenerator:
                             pk_cols = model_obj.primary_key_columns
                             # For composite keys, concatenate columns for hashing
                             if len(pk_cols) == 1:
-                                pk = pk_cols[0]
+                                agg_expr = build_symmetric_aggregate_sql(
+                                    measure_expr=f"{measure_name}_raw",
+                                    primary_key=pk_cols[0],
+                                    agg_type=measure.agg,
+                                    model_alias=f"{model_name}_cte",
+                                    dialect=self.dialect,
+                                )
                             else:
-                                pk = "CONCAT(" + ", '|', ".join(f"CAST({c} AS VARCHAR)" for c in pk_cols) + ")"
-
-                            agg_expr = build_symmetric_aggregate_sql(
-                                measure_expr=f"{measure_name}_raw",
-                                primary_key=pk,
-                                agg_type=measure.agg,
-                                model_alias=f"{model_name}_cte",
-                                dialect=self.dialect,
-                            )
+                                # Composite key: qualify every key column inside the CONCAT (an alias
+                                # prefix in front of the whole expression is not valid SQL)
+                                cte_alias = f"{model_name}_cte"
+                                pk = "CONCAT(" + ", '|', ".join(f"CAST({cte_alias}.{c} AS VARCHAR)" for c in pk_cols) + ")"
+                                agg_expr = build_symmetric_aggregate_sql(
+                                    measure_expr=f"{cte_alias}.{measure_name}_raw",
+                                    primary_key=pk,
+                                    agg_type=measure.agg,
+                                    model_alias=None,
+                                    dialect=self.dialect,
+                                )
                         else:
                             # Use helper that applies metric-level filters via CASE WHEN
                             # This ensures each metric's filter only affects that metric
